@@ -26,6 +26,9 @@ Replay == Tr[1].op = "#replay"
 
 Judge(ev) ==
     IF ev.op \in {"#end", "#replay"} THEN "ok"
+    \* written by tools/pipes/algo.py when the driver process itself died inside a group (a call damaged the
+    \* process beyond the driver's own fault containment): the group is abandoned like one that ended in a hang
+    ELSE IF ev.op = "#died" THEN "crash"
     ELSE IF ev.op \notin AllOps THEN "harness-op"
     ELSE IF ~InDom(ev.op, ev) THEN "harness-domain"
     ELSE IF "hang" \in DOMAIN ev THEN (IF ev.hang = 2 THEN "crash" ELSE "hang")   \* the call did not return / faulted
@@ -46,7 +49,7 @@ GroupVerdict ==
     IF Replay THEN "ok"
     ELSE IF SameGroup
     THEN IF Tr[l].op = "#end" \/ KeyLess(KeyOf(Tr[l - 1]), KeyOf(Tr[l])) THEN "ok" ELSE "harness-order"
-    ELSE IF l > 1 /\ Tr[l - 1].op \in AllOps /\ "hang" \notin DOMAIN Tr[l - 1] /\ l - gs # DomSize(Tr[l - 1].op)
+    ELSE IF l > 1 /\ Tr[l].op # "#died" /\ Tr[l - 1].op \in AllOps /\ "hang" \notin DOMAIN Tr[l - 1] /\ l - gs # DomSize(Tr[l - 1].op)
          THEN "harness-coverage"               \* (a group that ended in a hang is abandoned, not miscounted)
     ELSE IF <<Tr[l].op, Tr[l].inst>> \in done THEN "harness-regroup"
     ELSE "ok"
